@@ -441,6 +441,13 @@ def mc_run_all(ctx, scs, can_run_model, tag, with_ref=True):
                           "for by its set_timer / set_timer_once / cancel_timer calls and the firings it saw: %s" % xtm[0],
                 "scenario": vlib.scenario_text(sc), "impl": il[:40], "seed": ctx.seed, "suite": "MC",
                 "kind": "bookkeeping"})
+        xlog = [l for l in il if l.startswith("XLOG ")]
+        if xlog:
+            ctx.monitor_failures.append({
+                "clause": "C09:event_log_restored",
+                "detail": "on an explored state the event log of a process does not tell the invocations the process itself "
+                          "recorded on the path to that state (entries of another branch): %s" % xlog[0],
+                "scenario": vlib.scenario_text(sc), "impl": il[:40], "seed": ctx.seed, "suite": "MC", "kind": "eventlog"})
         for clause, detail in mc_monitors(sc, runs, ref_runs):
             ctx.monitor_failures.append({"clause": clause, "detail": detail, "scenario": vlib.scenario_text(sc),
                                          "impl": il[:300], "seed": ctx.seed, "suite": "MC"})
@@ -450,7 +457,8 @@ def mc_run_all(ctx, scs, can_run_model, tag, with_ref=True):
     ctx.clauses.update(["C09:rolled_back", "C09:mode_restored", "C14:purged", "C14:stays_silent", "C03:verdict_ok",
                         "C03:error_genuine", "C02:error_trace", "C16:collected_sound", "C16:collected_complete",
                         "C16:status_counts", "C16:stage_union", "C02:state_genuine", "C03:exhaustive", "C03:verdict_kind", "C20:no_panic",
-                        "C19:depth_predicates", "C19:state_depth_current_run", "C14:no_panic", "C19:predicate_value", "C07:mc_bookkeeping"])
+                        "C19:depth_predicates", "C19:state_depth_current_run", "C14:no_panic", "C19:predicate_value", "C07:mc_bookkeeping",
+                        "C09:event_log_restored"])
     return impl, parsed
 
 
@@ -1511,6 +1519,9 @@ def suite_pytwin(ctx, can_run_model):
             (sc, feat, seed) = gen_handoff.gen_scenario(rng, "py%d-%d" % (ctx.seed, j), clock_free=False)
             lines = [l for l in sc[2]]
             # Python processes cannot draw from the simulation's generator: draw-free programs only
+            # half of the scenarios use the Python twin with its own save/restore (restores its containers in place)
+            if j % 2 == 1:
+                lines = ["PYOWN"] + lines
             raw.append((("PYTWIN", sc[1], lines), feat, seed))
         if not ctx.widen:
             for w in load_corpus("PYTWIN"):      # witnesses of fixed findings and minimised failures first
@@ -1526,8 +1537,12 @@ def suite_pytwin(ctx, can_run_model):
     finally:
         gen_mc.PAYLOADS_OVERRIDE = None
     scs = fill_draws(raw + exc)
-    impl = vlib.run_impl(scs, "py-impl", shards=8)
-    ctx.clauses.update(["C18:twin_identical", "C18:exception_surfaces", "C18:source_untouched", "C18:state_roundtrip"])
+    # the same scripts with the checker created at the same point but RUN only after the rest of the simulation: a
+    # checker that shares nothing with the System it was created from reports exactly the same, and so does the System
+    late = [("PYTWIN", sc[1] + "-late", list(sc[2]) + ["LATEMC"]) for sc in scs[:len(raw)] if "CONTINUE" in sc[2]]
+    impl = vlib.run_impl(scs + late, "py-impl", shards=8)
+    ctx.clauses.update(["C18:twin_identical", "C18:exception_surfaces", "C18:source_untouched", "C18:state_roundtrip",
+                        "C18:checker_independent_of_source"])
     for idx, sc in enumerate(scs):
         sid = sc[1]
         ctx.evaluations += 1
@@ -1565,6 +1580,16 @@ def suite_pytwin(ctx, can_run_model):
         d = vlib.first_diff(a, b)
         if d is not None:
             fail("C18:twin_identical", "Rust twin and Python twin differ at line %d: %s / %s" % (d[0], d[1][:200], d[2][:200]))
+        if "CONTINUE" in sc[2]:
+            ll = impl.get(sid + "-late", [])
+            ctx.evaluations += 1
+            d = vlib.first_diff(il, ll)
+            if d is not None:
+                fail("C18:checker_independent_of_source",
+                     "running the checker after the rest of the simulation instead of before it changed the output at line %d: %s / %s"
+                     % (d[0], d[1][:200], d[2][:200]))
+            else:
+                ctx.count("late_checker_runs_identical")
         nlog = sum(1 for l in rust if l.startswith(("LOG", "CHECK")))
         if nlog >= 12:
             ctx.nontrivial.add(sc_hash(sc))
@@ -1679,6 +1704,99 @@ def suite_mc_staged_modes(ctx, can_run_model):
                                                      "seed": ctx.seed, "suite": "MCSTAGEDMODES", "feat": base["feat"]})
             if sum(len(r["checks"]) for r in a) >= 12:
                 ctx.nontrivial.add(sc_hash(g["FULL"]))
+
+
+# ---------------------------------------------------------------------------------------------------
+# C11 for programs that draw ctx.rand() in model checking (implementation only: the model leaves the values
+# uninterpreted and proves that they are a function of the compared state - theorem C11 takes that as `mc_rand ds`)
+
+QUOTE_FREE = [b'[1, 2]', b'7']      # payloads the checker's corruption leaves unchanged (no quoted text)
+
+
+def gen_draw_base(rng):
+    """sender(s) on node 0, drawing receiver on node 1, corruption on: the corruption step of a quote-free payload
+    lengthens the path without changing the state, so equal states are reached at different depths"""
+    from vlib import f64_bits
+    nprocs = rng.choice([2, 2, 3])
+    placement = [0] + [1] * (nprocs - 1) if rng.random() < 0.7 else [rng.randrange(2) for _ in range(nprocs)]
+    if len(set(placement)) == 1:
+        placement[-1] = 1 - placement[0]
+    lines = ["NODE 0 0", "NODE 1 0"]
+    def msg():
+        pl = rng.choice(QUOTE_FREE * 2 + [gen_mc.PAYLOADS[1], gen_mc.PAYLOADS[5]])
+        return "%s %s" % (gen_mc.bstr(gen_mc.TIPS[0]), gen_mc.bstr(pl))
+    for p in range(nprocs):
+        nrows = rng.choice([1, 2])
+        cap = rng.choice([1, 2]) if p == 0 else rng.choice([2, 3])
+        lines.append("PROC %d %d %d 0 %d %d" % (p, placement[p], cap, rng.choice([1, 1, 2]), nrows))
+        for ri in range(nrows):
+            acts = []
+            others = [q for q in range(nprocs) if placement[q] != placement[p]] or [q for q in range(nprocs) if q != p]
+            k = rng.choice([1, 1, 2])
+            for _ in range(k):
+                r = rng.random()
+                if r < 0.55:
+                    acts.append("S %d %s" % (rng.choice(others), msg()))
+                elif r < 0.8:
+                    acts.append("T %d %d 1" % (rng.randrange(2), f64_bits(rng.choice([0.5, 1.0]))))
+                else:
+                    acts.append("L %s" % msg())
+            lines.append("ROW %d %d %s" % (p, len(acts), " ".join(acts)))
+    z = f64_bits(0.0)
+    lines.append("NET %d %d %d %d %d" % (f64_bits(0.5) if rng.random() < 0.2 else z, z, f64_bits(0.5), f64_bits(1.0), f64_bits(1.0)))
+    cb = ["CB LOCAL %d 0 %s" % (placement[0], msg())]
+    preds = ["PRED INV NONE", "PRED GOAL NOEVENTS", "PRED PRUNE NONE", "PRED COLLECT NONE"]
+    return {"sys": lines, "cb": cb, "preds": preds, "feat": {"corrupt": True, "draws": True}, "nprocs": nprocs, "nnodes": 2}
+
+
+def suite_mc_draw_modes(ctx, can_run_model):
+    rng = random.Random(ctx.seed * 1000003 + 89)
+    n = ctx.scale(40, 1500)
+    scs, groups = [], []
+    for j in range(n):
+        base = gen_draw_base(rng)
+        st = rng.choice(["BFS", "DFS"])
+        g = {}
+        for vm in ("FULL", "DISABLED"):
+            g[vm] = gen_mc.variant(base, "dm%d-%d-%s" % (ctx.seed, j, vm), st, vm, debug=0, repeat=1)
+            scs.append(g[vm])
+        groups.append((base, g))
+    impl = vlib.run_impl(scs, "dm-impl")
+    ctx.clauses.update(["C11:draws_modes_same_states", "C11:draws_modes_same_verdict"])
+    for base, g in groups:
+        ctx.evaluations += 2
+        ia, ib = impl.get(g["FULL"][1], []), impl.get(g["DISABLED"][1], [])
+        a, b = parse_mc(ia), parse_mc(ib)
+        if len(a) != 1 or len(b) != 1 or not a[0]["result"] or not b[0]["result"]:
+            ctx.monitor_failures.append({"clause": "C11:draws_modes_same_verdict", "detail": "no result: %s / %s" % (ia[-2:], ib[-2:]),
+                                         "scenario": vlib.scenario_text(g["FULL"]), "impl": ia[:10], "seed": ctx.seed,
+                                         "suite": "MCDRAWMODES", "feat": base["feat"]})
+            continue
+        if a[0]["result"][0] not in ("OK", "ERR") or b[0]["result"][0] not in ("OK", "ERR"):
+            ctx.count("draw_modes_out_of_fuel")
+            continue
+        if a[0]["result"][0] != b[0]["result"][0]:
+            ctx.monitor_failures.append({"clause": "C11:draws_modes_same_verdict",
+                                         "detail": "Full %s, Disabled %s" % (a[0]["result"][0], b[0]["result"][0]),
+                                         "scenario": vlib.scenario_text(g["FULL"]), "impl": ia[:10], "seed": ctx.seed,
+                                         "suite": "MCDRAWMODES", "feat": base["feat"]})
+            continue
+        sa = set(c["eqp"] for c in a[0]["checks"])
+        sb = set(c["eqp"] for c in b[0]["checks"])
+        if sa != sb:
+            ctx.monitor_failures.append({"clause": "C11:draws_modes_same_states",
+                                         "detail": "programs drawing ctx.rand(): Full evaluates %d distinct states, Disabled %d "
+                                                   "(%d only under Disabled): the values drawn in equal states differ"
+                                                   % (len(sa), len(sb), len(sb - sa)),
+                                         "scenario": vlib.scenario_text(g["FULL"]), "impl": ia[:10], "seed": ctx.seed,
+                                         "suite": "MCDRAWMODES", "feat": base["feat"]})
+        # equal states reached at different depths are what makes the comparison meaningful
+        depths = {}
+        for c in b[0]["checks"]:
+            depths.setdefault(c["eqp"], set()).add(c["d"])
+        if any(len(v) > 1 for v in depths.values()):
+            ctx.count("draw_modes_equal_states_at_two_depths")
+            ctx.nontrivial.add(sc_hash(g["FULL"]))
 
 
 # ---------------------------------------------------------------------------------------------------
@@ -1843,9 +1961,10 @@ PROPERTIES = {
         "assumptions": STD_ASSUMPTIONS + ["state-based predicates; clock-independent programs"],
     },
     "C11": {
-        "suites": [suite_mc_matrix_sb, suite_mc_matrix, suite_clock, suite_mc_staged_modes],
+        "suites": [suite_mc_matrix_sb, suite_mc_matrix, suite_clock, suite_mc_staged_modes, suite_mc_draw_modes],
         "rule": "as C10, comparing Full / Partial / Disabled; plus clock-reading programs (known finding F14: witness "
-                "and random stream, Full vs Disabled).",
+                "and random stream, Full vs Disabled); plus programs that draw ctx.rand() under corruption of quote-free "
+                "payloads (equal states at different depths), implementation only, Full vs Disabled.",
         "assumptions": STD_ASSUMPTIONS + ["no 64-bit hash collision (Partial is modelled as Full)",
                                           "known findings F14 (clock-reading programs) and F10 are excluded by class"],
     },
